@@ -128,14 +128,22 @@ impl Highlight {
         // If the span is not over multiple lines, there is no riser portion.
         if *riser_state == RiserState::Unused { return Ok(()); }
 
+        let start_line = self.span.start().page.line;
+        let end_line = self.span.end().page.line;
         match *riser_state {
             RiserState::Unused  => Ok(()),
 
             RiserState::Ended   => write!(out, " "),
 
-            RiserState::Waiting => if !is_active_riser 
+            // The line where the highlight starts has not been reached yet.
+            RiserState::Waiting if current_line < start_line
+                => write!(out, " "),
+
+            // The highlight starts at the start of a line: the riser begins on
+            // the source line itself.
+            RiserState::Waiting if !is_active_riser
                 && self.span.start().page.column == 0
-                && !self.has_message_for_line(current_line)
+                && self.start_message.is_none() =>
             {
                 *riser_state = RiserState::Started;
                 if color_enabled {
@@ -143,32 +151,20 @@ impl Highlight {
                 } else {
                     write!(out, "/")
                 }
+            },
 
-            } else if self.has_message_for_line(current_line) {
-                *riser_state = RiserState::Started;
-                write!(out, " ")
-
-            } else {
+            // The highlight starts within a line: the riser begins below the
+            // row holding its start mark.
+            RiserState::Waiting => {
+                if is_active_riser { *riser_state = RiserState::Started; }
                 write!(out, " ")
             },
 
-            RiserState::Started => if !is_active_riser 
-                && self.span.end().page.column == 0
-                && !self.has_message_for_line(current_line)
-            {
-                *riser_state = RiserState::Ended;
-                if color_enabled {
-                    write!(out, "{}", "\\".color(self.message_type.color()))
-                } else {
-                    write!(out, "\\")
+            // The riser continues down to the row holding the end mark.
+            RiserState::Started => {
+                if is_active_riser && current_line >= end_line {
+                    *riser_state = RiserState::Ended;
                 }
-
-            } else if is_active_riser 
-                && self.has_message_for_line(current_line)
-            {
-                *riser_state = RiserState::Ended;
-                write!(out, "|")
-            } else {
                 write!(out, "|")
             },
         }
@@ -234,13 +230,12 @@ impl Highlight {
                     write!(out, "_")?;
                 }
             }
-            if self.span.start().page.column > 0 {
-                for _ in 0..(self.span.start().page.column - 1) {
-                    if color_enabled {
-                        write!(out, "{}", "_".color(self.message_type.color()))?;
-                    } else {
-                        write!(out, "_")?;
-                    }
+            // The start mark goes under the first column of the highlight.
+            for _ in 0..self.span.start().page.column {
+                if color_enabled {
+                    write!(out, "{}", "_".color(self.message_type.color()))?;
+                } else {
+                    write!(out, "_")?;
                 }
             }
             if color_enabled {
